@@ -642,6 +642,7 @@ func runC14(c *Ctx) {
 			why := ""
 			seenRead := false
 			lsl := flow.NewSlicer(c.P)
+			lsl.LiftParams = 2 // a parsing helper is handed the text: the bytes are what its callers read
 			lsl.Visit(call.Common().Args[0], func(v ssa.Value) bool {
 				switch v := v.(type) {
 				case *ssa.Global:
